@@ -4,6 +4,8 @@ import (
 	"fmt"
 	"go/constant"
 	"go/token"
+	"go/types"
+	"regexp"
 	"sort"
 	"strconv"
 	"strings"
@@ -104,6 +106,49 @@ type frame struct {
 	fn   *ssa.Function
 	env  map[ssa.Value]string
 	syms *Symer
+	// subst maps the parameter roots of an inlined callee ("recv", "arg0", ...) to
+	// the caller's (already resolved) symbolic form of the argument, so that
+	// memory locations and atoms mean the same in every frame (a block moved into
+	// a helper reads and writes the same fields).
+	subst map[string]string
+}
+
+var rootTokenRE = regexp.MustCompile(`(^|[^A-Za-z0-9_:.])(recv|arg[0-9]+)\b`)
+
+// resolve rewrites a symbolic form of this frame into the top frame's terms.
+func (f *frame) resolve(s string) string {
+	if len(f.subst) == 0 {
+		return s
+	}
+	return rootTokenRE.ReplaceAllStringFunc(s, func(m string) string {
+		sub := rootTokenRE.FindStringSubmatch(m)
+		if r, ok := f.subst[sub[2]]; ok {
+			return sub[1] + r
+		}
+		return m
+	})
+}
+
+// memKey is the key of a memory location in the path's store.
+func (f *frame) memKey(addr string) string {
+	r := f.resolve(addr)
+	if strings.HasPrefix(r, "local:") || strings.HasPrefix(r, "&(") {
+		return "@" + FuncName(f.fn) + "@" + r
+	}
+	return "@mem@" + r
+}
+
+// atom looks sym up as an atom, in this frame's terms and in the top frame's.
+func (ev *evaluator) atom(f *frame, sym string) (string, bool) {
+	if a, ok := ev.atomFor(f.fn, sym); ok {
+		return a, true
+	}
+	if len(f.subst) > 0 {
+		if r := f.resolve(sym); r != sym {
+			return ev.atomFor(ev.spec.Fn, r)
+		}
+	}
+	return "", false
 }
 
 func (ev *evaluator) val(f *frame, v ssa.Value) string {
@@ -120,7 +165,7 @@ func (ev *evaluator) val(f *frame, v ssa.Value) string {
 		return r
 	}
 	// parameters / free variables / globals may be atoms
-	if a, ok := ev.atomFor(f.fn, f.syms.Sym(v)); ok {
+	if a, ok := ev.atom(f, f.syms.Sym(v)); ok {
 		return a
 	}
 	return absUnknown
@@ -139,9 +184,59 @@ func (ev *evaluator) compute(f *frame, in ssa.Instruction, pred *ssa.BasicBlock,
 	v, isVal := in.(ssa.Value)
 	if isVal {
 		if _, isCall := in.(*ssa.Call); !isCall {
-			if a, ok := ev.atomFor(f.fn, f.syms.Sym(v)); ok {
+			if a, ok := ev.atom(f, f.syms.Sym(v)); ok {
 				f.env[v] = a
 				return
+			}
+			// the same comparison written the other way round, or its complement
+			// (De Morgan / inverted early return): a boolean atom decides it too
+			if bo, isCmp := in.(*ssa.BinOp); isCmp {
+				l, r := f.syms.Sym(bo.X), f.syms.Sym(bo.Y)
+				type alt struct {
+					s   string
+					neg bool
+				}
+				var alts []alt
+				form := func(a, op, b string) string { return "(" + a + " " + op + " " + b + ")" }
+				switch bo.Op {
+				case token.EQL:
+					alts = []alt{{form(l, "!=", r), true}, {form(r, "!=", l), true}, {form(r, "==", l), false}}
+				case token.NEQ:
+					alts = []alt{{form(l, "==", r), true}, {form(r, "==", l), true}, {form(r, "!=", l), false}}
+				case token.LSS:
+					alts = []alt{{form(r, ">", l), false}, {form(l, ">=", r), true}, {form(r, "<=", l), true}}
+				case token.LEQ:
+					alts = []alt{{form(r, ">=", l), false}, {form(l, ">", r), true}, {form(r, "<", l), true}}
+				case token.GTR:
+					alts = []alt{{form(r, "<", l), false}, {form(l, "<=", r), true}, {form(r, ">=", l), true}}
+				case token.GEQ:
+					alts = []alt{{form(r, "<=", l), false}, {form(l, "<", r), true}, {form(r, ">", l), true}}
+				}
+				// unsigned values and lengths: x > 0, x != 0, x >= 1 are one predicate
+				if isNonNegative(bo.X) {
+					pos := []string{form(l, ">", "0"), form(l, "!=", "0"), form(l, ">=", "1"), form("0", "<", l), form("1", "<=", l)}
+					isPos, isNeg := false, false
+					switch {
+					case r == "0" && (bo.Op == token.GTR || bo.Op == token.NEQ), r == "1" && bo.Op == token.GEQ:
+						isPos = true
+					case r == "0" && (bo.Op == token.EQL || bo.Op == token.LEQ), r == "1" && bo.Op == token.LSS:
+						isNeg = true
+					}
+					if isPos || isNeg {
+						for _, p := range pos {
+							alts = append(alts, alt{p, isNeg})
+						}
+					}
+				}
+				for _, al := range alts {
+					if a, ok := ev.atom(f, al.s); ok && (a == "true" || a == "false") {
+						if al.neg {
+							a = boolStr(a != "true")
+						}
+						f.env[v] = a
+						return
+					}
+				}
 			}
 		}
 	}
@@ -177,7 +272,7 @@ func (ev *evaluator) compute(f *frame, in ssa.Instruction, pred *ssa.BasicBlock,
 				if k := ev.val(f, ia.Index); k != absUnknown && !strings.HasPrefix(k, "sym:") {
 					if i, _, isInt := parseAbsInt(k); isInt {
 						dyn := fmt.Sprintf("%s[%d]", f.syms.Sym(ia.X), i)
-						if a, ok := ev.atomFor(f.fn, dyn); ok {
+						if a, ok := ev.atom(f, dyn); ok {
 							f.env[x] = a
 							return
 						}
@@ -185,12 +280,19 @@ func (ev *evaluator) compute(f *frame, in ssa.Instruction, pred *ssa.BasicBlock,
 					}
 				}
 			}
-			if r, ok := out.Effects["@"+FuncName(f.fn)+"@"+addr]; ok {
+			if r, ok := out.Effects[f.memKey(addr)]; ok {
 				f.env[x] = r
 			}
 		}
 	case *ssa.BinOp:
 		a, b := ev.val(f, x.X), ev.val(f, x.Y)
+		// a value built by an error constructor is not nil
+		if x.Op == token.EQL || x.Op == token.NEQ {
+			if (strings.HasPrefix(a, nonNilSym) && b == "nil") || (strings.HasPrefix(b, nonNilSym) && a == "nil") {
+				f.env[x] = boolStr(x.Op == token.NEQ)
+				return
+			}
+		}
 		if a == absUnknown || b == absUnknown || strings.HasPrefix(a, "sym:") || strings.HasPrefix(b, "sym:") {
 			return
 		}
@@ -217,11 +319,29 @@ func (ev *evaluator) compute(f *frame, in ssa.Instruction, pred *ssa.BasicBlock,
 		case token.GEQ:
 			f.env[x] = boolStr(ai >= bi)
 		case token.ADD:
-			f.env[x] = strconv.FormatInt(ai+bi, 10) + at
+			f.env[x] = strconv.FormatInt(wrapInt(ai+bi, x.Type()), 10) + at
 		case token.SUB:
-			f.env[x] = strconv.FormatInt(ai-bi, 10) + at
+			f.env[x] = strconv.FormatInt(wrapInt(ai-bi, x.Type()), 10) + at
 		case token.MUL:
-			f.env[x] = strconv.FormatInt(ai*bi, 10) + at
+			f.env[x] = strconv.FormatInt(wrapInt(ai*bi, x.Type()), 10) + at
+		case token.SHL:
+			if bi >= 0 && bi < 63 {
+				f.env[x] = strconv.FormatInt(wrapInt(ai<<uint(bi), x.Type()), 10) + at
+			}
+		case token.SHR:
+			if bi >= 0 && bi < 63 && ai >= 0 {
+				f.env[x] = strconv.FormatInt(ai>>uint(bi), 10) + at
+			}
+		case token.QUO:
+			if bi != 0 {
+				f.env[x] = strconv.FormatInt(ai/bi, 10) + at
+			}
+		case token.REM:
+			if bi != 0 {
+				f.env[x] = strconv.FormatInt(ai%bi, 10) + at
+			}
+		case token.XOR:
+			f.env[x] = strconv.FormatInt(ai^bi, 10) + at
 		case token.AND:
 			f.env[x] = strconv.FormatInt(ai&bi, 10) + at
 		case token.OR:
@@ -234,7 +354,7 @@ func (ev *evaluator) compute(f *frame, in ssa.Instruction, pred *ssa.BasicBlock,
 			if k := ev.val(f, x.Index); k != absUnknown && !strings.HasPrefix(k, "sym:") {
 				if i, _, isInt := parseAbsInt(k); isInt {
 					dyn := fmt.Sprintf("%s[%d]", f.syms.Sym(ld.X), i)
-					if a, ok := ev.atomFor(f.fn, dyn); ok {
+					if a, ok := ev.atom(f, dyn); ok {
 						f.env[x] = a
 					}
 				}
@@ -260,10 +380,14 @@ func (ev *evaluator) compute(f *frame, in ssa.Instruction, pred *ssa.BasicBlock,
 		if val == absUnknown {
 			val = "sym:" + f.syms.Sym(x.Val)
 		}
-		out.Effects["@"+FuncName(f.fn)+"@"+addr] = val
+		out.Effects[f.memKey(addr)] = val
+		raddr := f.resolve(addr)
+		if strings.HasPrefix(val, "sym:") {
+			val = "sym:" + f.resolve(val[4:])
+		}
 		for _, p := range ev.spec.Effects {
-			if wild(p, addr) {
-				out.Effects[addr] = val
+			if wild(p, raddr) {
+				out.Effects[raddr] = val
 			}
 		}
 	case *ssa.Call:
@@ -287,13 +411,20 @@ func (ev *evaluator) call(f *frame, x *ssa.Call, out *evalOutcome, depth int) {
 			}
 		}
 	}
-	if a, ok := ev.atomFor(f.fn, sym); ok {
+	if a, ok := ev.atom(f, sym); ok {
 		f.env[x] = a
+		return
+	}
+	if isErrorConstructor(name) {
+		f.env[x] = nonNilSym + f.resolve(sym)
 		return
 	}
 	h := x.Common().StaticCallee()
 	if h == nil || h.Blocks == nil || depth <= 0 || !inModule(h) {
 		return
+	}
+	if isObserverCallee(name) {
+		return // logging / metrics / tracing: no influence on the decision
 	}
 	for _, p := range ev.spec.NoInline {
 		if wild(p, name) {
@@ -301,12 +432,13 @@ func (ev *evaluator) call(f *frame, x *ssa.Call, out *evalOutcome, depth int) {
 		}
 	}
 	// only inline callees that return a status (disposition/bool/error) or nothing
-	sub := &frame{fn: h, env: map[ssa.Value]string{}, syms: NewSymer()}
+	sub := &frame{fn: h, env: map[ssa.Value]string{}, syms: NewSymer(), subst: map[string]string{}}
 	for i, p := range h.Params {
 		if i < len(x.Common().Args) {
 			if v := ev.val(f, x.Common().Args[i]); v != absUnknown {
 				sub.env[p] = v
 			}
+			sub.subst[sub.syms.Sym(p)] = f.resolve(f.syms.Sym(x.Common().Args[i]))
 		}
 	}
 	ev.c.Funcs[FuncName(h)] = true
@@ -315,14 +447,14 @@ func (ev *evaluator) call(f *frame, x *ssa.Call, out *evalOutcome, depth int) {
 		return
 	}
 	if len(res) == 1 {
-		if !strings.HasPrefix(res[0], "sym:") {
+		if !strings.HasPrefix(res[0], "sym:") || strings.HasPrefix(res[0], nonNilSym) {
 			f.env[x] = res[0]
 		}
 	} else if len(res) > 1 {
 		// tuple: bind extracts lazily via env on Extract instructions
 		for _, ref := range *x.Referrers() {
 			if e, ok := ref.(*ssa.Extract); ok && e.Index < len(res) &&
-				!strings.HasPrefix(res[e.Index], "sym:") {
+				(!strings.HasPrefix(res[e.Index], "sym:") || strings.HasPrefix(res[e.Index], nonNilSym)) {
 				f.env[e] = res[e.Index]
 			}
 		}
@@ -566,4 +698,69 @@ func EvalFn(c *Ctx, fn *ssa.Function, params []string, noInline []string) *evalO
 	c.Cells++
 	out.Ret = ev.run(f, out, 2)
 	return out
+}
+
+// nonNilSym prefixes the abstract value of an error built by a constructor that
+// never returns nil; it is a "sym:" value for every oracle ("sym:*").
+const nonNilSym = "sym:!nil:"
+
+func isErrorConstructor(name string) bool {
+	switch name {
+	case "errors.New", "fmt.Errorf":
+		return true
+	}
+	// (Join / JoinNoStack return nil for two nil arguments and are not listed)
+	for _, p := range []string{"pkg/private/serrors.New", "pkg/private/serrors.Wrap", "pkg/private/serrors.WrapNoStack"} {
+		if name == p {
+			return true
+		}
+	}
+	return false
+}
+
+// wrapInt truncates v to the width and signedness of the basic integer type t.
+func wrapInt(v int64, t types.Type) int64 {
+	b, ok := t.Underlying().(*types.Basic)
+	if !ok {
+		return v
+	}
+	switch b.Kind() {
+	case types.Uint8:
+		return int64(uint8(v))
+	case types.Uint16:
+		return int64(uint16(v))
+	case types.Uint32:
+		return int64(uint32(v))
+	case types.Int8:
+		return int64(int8(v))
+	case types.Int16:
+		return int64(int16(v))
+	case types.Int32:
+		return int64(int32(v))
+	}
+	return v
+}
+
+// isNonNegative: values of unsigned type and lengths/capacities.
+func isNonNegative(v ssa.Value) bool {
+	if b, ok := v.Type().Underlying().(*types.Basic); ok && b.Info()&types.IsUnsigned != 0 {
+		return true
+	}
+	if c, ok := v.(*ssa.Call); ok {
+		if bi, ok := c.Common().Value.(*ssa.Builtin); ok && (bi.Name() == "len" || bi.Name() == "cap") {
+			return true
+		}
+	}
+	return false
+}
+
+// isObserverCallee: module packages that only observe (logging, metrics, tracing).
+func isObserverCallee(name string) bool {
+	n := strings.TrimLeft(name, "(*")
+	for _, p := range []string{"pkg/log.", "pkg/log/", "pkg/metrics", "pkg/private/prom", "private/tracing"} {
+		if strings.HasPrefix(n, p) {
+			return true
+		}
+	}
+	return false
 }
